@@ -6,6 +6,11 @@ VERIF = os.path.dirname(os.path.abspath(__file__))
 
 # property id -> (level category, technique, level text, level note, design ref)
 CLAIMED = {
+    "C13": ("exploration",
+            "offline trace-specification checker over boundary-recorded histories (rendezvous spec, conservation) + porcupine bag model for the queue + parked-goroutine detector for cancellation",
+            "TellHub, AskHub and Queue are driven directly by 1-8 producers/receivers with per-call contexts, closes and seeded delays at hook points; all events are stamped from one counter at the API boundary and checked offline: exactly-one callback per message, success only after the callback finished, error only if no callback ever saw it, overlapping intervals, conservation, own-context errors; cancelled calls (also udpswarm/vswarm Receive) must not remain parked.",
+            "Promptness is decided by two goroutine snapshots 1 s apart after a 3-5 s watchdog (parked in library frames = violation, otherwise inconclusive), never by wall-clock alone.",
+            "DESIGN.md §4 C13"),
     "C02": ("exploration",
             "plaintext/counter ledger monitors over adversarial schedules (sessions driven directly; channels with millisecond timers) + encryption-site hook events",
             "Honest, unrelated and attacker-paired sessions feed one pool on which a seeded adversary replays, mutates, splices, cross-feeds and reorders; every plaintext handed to the application is looked up in the per-pair ledger and keyed by counter (at most once), every ciphertext counter is recorded at the encryption site via a hook and checked for reuse, and emitted bytes are scanned for plaintexts.",
